@@ -26,14 +26,18 @@ Environment answers are *oracles* (inputs of the step functions), so that "for
 every position at which FindMissing / Put / the flush / the AC Put can fail or
 be cancelled" is a universally quantified variable of the theorems:
 * `FlushOracle.fm`   : result of the `FindMissing` call of one `flushLocked`;
-* `FlushOracle.puts` : the underlying `Put` calls that were actually issued by
-  the errgroup of that `flushLocked`, in the order in which they were issued,
-  each with its result.  A missing blob that is *not* listed was not issued:
-  that happens exactly when `util.AcquireSemaphore(groupCtx, …)` failed because
-  the context was cancelled (by the caller or by an earlier failing Put), and
-  it yields a Canceled error unless an earlier error exists.  (Whether a Put
-  following a failed Put is still issued is a genuine race in the Go code; the
-  theorems hold for every choice.)
+* `FlushOracle.puts` : what the scheduling goroutine of the errgroup of that
+  `flushLocked` did, in order: `.put d r` = it obtained an upload slot and the
+  underlying `Put` of `d` was issued with result `r`; `.acquireFailed c` =
+  `util.AcquireSemaphore(groupCtx, putSemaphore, 1)` failed with code `c`
+  because the context was cancelled — by the caller (possibly while waiting for
+  a slot that another worker thread holds: the semaphore is shared) or by an
+  earlier failing Put.  It behaves like a failed Put: the error is recorded and
+  nothing further is issued; the remaining buffers are discarded.  A missing
+  blob that is neither issued nor preceded by `.acquireFailed` is treated the
+  same way (Canceled), so the function is total.  (Whether a Put following a
+  failed Put is still issued is a genuine race in the Go code; the theorems
+  hold for every choice.)
 * `FlushOracle.winner` : which of the errors of one errgroup `group.Wait()`
   reports.  errgroup keeps the error of the goroutine that reaches its
   `sync.Once` first, which need not be the Put that failed first; the model
@@ -76,9 +80,15 @@ deriving Repr, DecidableEq
 def Store.init (batchSize : Nat) (cas : List Digest) : Store :=
   { batchSize := batchSize, pending := [], flushError := none, cas := cas, consumed := [], errorsRecorded := 0 }
 
+/-- One step of the scheduling goroutine of `flushLocked`'s errgroup. -/
+inductive IssueEv where
+  | put (d : Digest) (r : Option Code)
+  | acquireFailed (c : Code)
+deriving Repr, DecidableEq
+
 structure FlushOracle where
   fm : Option Code
-  puts : List (Digest × Option Code)
+  puts : List IssueEv
   winner : Option Code := none
 deriving Repr, DecidableEq
 
@@ -125,9 +135,13 @@ def issueOne (cas0 : List Digest) (g : Group) (e : Digest × Option Code) : Grou
       | none => { pend := pend', cas := e.1 :: g.cas, consumed := b :: g.consumed, errs := g.errs }
       | some c => { pend := pend', cas := g.cas, consumed := b :: g.consumed, errs := g.errs ++ [c] }
 
-/-- The upload loop (errgroup) of `flushLocked`. -/
-def issuePuts (cas0 : List Digest) (g : Group) (t : List (Digest × Option Code)) : Group :=
-  t.foldl (issueOne cas0) g
+/-- The upload loop (errgroup) of `flushLocked`.  A failed semaphore
+acquisition ends the loop with that error (`return err` in the scheduling
+goroutine). -/
+def issuePuts (cas0 : List Digest) (g : Group) : List IssueEv → Group
+  | [] => g
+  | .put d r :: rest => issuePuts cas0 (issueOne cas0 g (d, r)) rest
+  | .acquireFailed c :: _ => { g with errs := g.errs ++ [c] }
 
 /-- `flushLocked`. -/
 def flushLocked (s : Store) (o : FlushOracle) : Store :=
